@@ -36,7 +36,7 @@ TIERS = {
               "required_probes": ["c16.single_path_checked", "c16.coupled_path_checked", "c16.diag_coefficient",
                                   "c16.maxstep_active", "c16.level_ge_2", "c16.fixing_inside_the_horizon",
                                   "c16.state_dependent_sde_drift", "c16.nd_single_path_checked",
-                                  "c16.nd_coupled_path_checked"]},
+                                  "c16.nd_coupled_path_checked", "c16.euler_step_starts_on_a_fixing_date"]},
     "thorough": {"worlds": 80000, "wall": 2900, "shrink_budget": 100,
                  "required_probes": ["c16.single_path_checked", "c16.coupled_path_checked", "c16.diag_coefficient",
                                      "c16.maxstep_active", "c16.level_ge_2"]},
